@@ -91,7 +91,9 @@ class Handshake:
             return False
         if self.http_version < "1.1":
             return False
-        elif self.http_version == "1.1":
+        elif self.http_version not in {"2", "3"}:
+            # An upgrade of a HTTP/1 connection, whichever minor
+            # version (>= 1.1) the client has stated
             if self.key is None:
                 return False
             if self.connection_tokens is None or not any(
@@ -129,7 +131,7 @@ class Handshake:
             headers.append((b"sec-websocket-accept", generate_accept_token(self.key)))
 
         status_code = 200
-        if self.http_version == "1.1":
+        if self.http_version not in {"2", "3"}:
             headers.extend([(b"upgrade", b"WebSocket"), (b"connection", b"Upgrade")])
             status_code = 101
 
